@@ -104,6 +104,11 @@ pub struct Slot {
     pub server_conn_events: u32,
     pub tainted: bool,
     pub last_transport_err: Option<String>,
+    /// a datagram of this direction was lost/withheld after a disconnect was decided (then only the timeout path is owed)
+    pub lost_after_decision: [bool; 2],
+    pub decided_side: Option<usize>, // 0 = client side decided first, 1 = server side
+    /// at decision time the peer had the session and nothing older was in flight towards it (nothing can overtake the disconnect)
+    pub decision_clean: bool,
 }
 
 pub struct WorldC {
@@ -158,6 +163,7 @@ impl WorldC {
     pub fn new(cfg: &Cfg) -> WorldC {
         let mut sut_rng = Rng::new(cfg.get("sutseed") ^ 0xC0DE_C0DE);
         renetcode::verif_rng::install(Some(Box::new(move |buf: &mut [u8]| sut_rng.fill(buf))));
+        renet::verif::set_hash_seed(cfg.get("sutseed") ^ 0x4A5);
         let net = Rc::new(SimNet(RefCell::new(NetState::default())));
         verif_net::install(Some(net.clone()));
         let server_addr = SocketAddr::new(IpAddr::V4(Ipv4Addr::new(10, 1, 0, 1)), 7000);
@@ -197,6 +203,9 @@ impl WorldC {
                 server_conn_events: 0,
                 tainted: false,
                 last_transport_err: None,
+                lost_after_decision: [false, false],
+                decided_side: None,
+                decision_clean: false,
             })
             .collect();
         let mut w = WorldC {
@@ -258,6 +267,9 @@ impl WorldC {
         s.server_conn_events = 0;
         s.tainted = false;
         s.last_transport_err = None;
+        s.lost_after_decision = [false, false];
+        s.decided_side = None;
+        s.decision_clean = false;
     }
 
     pub fn slot_of_addr(&self, a: SocketAddr) -> Option<usize> {
